@@ -9,7 +9,7 @@ trap 'git -C /repo checkout -- . ; git -C /repo status --short' EXIT
 git -C /repo apply "$D/patch.diff" || { echo "patch does not apply"; exit 3; }
 for P in "$@"; do
   echo "=== $P on $(basename $D)"
-  VERIF_REPLAYS_DIR=/tmp/seed_replays ./check "$P" --tier ${TIER:-quick} ${EXTRA:-} > /tmp/seed_$$.log 2>&1
+  VERIF_REPLAYS_DIR=/tmp/seed_replays VERIF_EVIDENCE_DIR=/tmp/seed_evidence ./check "$P" --tier ${TIER:-quick} ${EXTRA:-} > /tmp/seed_$$.log 2>&1
   rc=$?
   grep -E "VIOLATION|KNOWN-FINDING|UNDECIDED|^OK|failed obligation|failing input|note:" /tmp/seed_$$.log | cut -c1-400 | head -${LINES_MAX:-12}
   echo "rc=$rc"
